@@ -85,6 +85,7 @@ extern "C" {
     fn anoncreds_credential_request_from_json(json: ByteBuffer, result_p: *mut usize) -> usize;
     fn anoncreds_create_credential(cred_def: usize, cred_def_private: usize, offer: usize, request: usize, names: FfiList<*const c_char>, raws: FfiList<*const c_char>, encs: FfiList<*const c_char>, revocation: *const c_void, result_p: *mut usize) -> usize;
     fn anoncreds_process_credential(cred: usize, md: usize, link_secret: *const c_char, cred_def: usize, rev_reg_def: usize, result_p: *mut usize) -> usize;
+    fn anoncreds_process_w3c_credential(cred: usize, md: usize, link_secret: *const c_char, cred_def: usize, rev_reg_def: usize, result_p: *mut usize) -> usize;
     fn anoncreds_update_revocation_status_list_timestamp_only(timestamp: i64, list: usize, result_p: *mut usize) -> usize;
     fn anoncreds_create_presentation(
         pres_req: usize, credentials: FfiList<FfiCredentialEntry>, prove: FfiList<FfiCredentialProve>, sa_names: FfiList<*const c_char>, sa_values: FfiList<*const c_char>,
@@ -144,9 +145,11 @@ fn world_docs(w: &World) -> Value {
         "list0": serde_json::to_value(&w.lists[0].list).unwrap(),
         "state10": serde_json::to_value(w.states.get(&(1, 0)).unwrap()).unwrap(),
         "cred0": serde_json::to_value(&w.creds[0].legacy).unwrap(), "cred1": serde_json::to_value(&w.creds[1].legacy).unwrap(),
+        "w3c_cred0": serde_json::to_value(&w.creds[0].w3c).unwrap(),
         "request": serde_json::to_value(&req).unwrap(), "presentation": serde_json::to_value(&pres).unwrap(), "w3c_presentation": serde_json::to_value(&wpres).unwrap(),
         "rrequest": serde_json::to_value(&rreq).unwrap(), "rpresentation": serde_json::to_value(&rpres).unwrap(),
         "link_secret": ls,
+        "tails_path": w.tails_path,
     })
 }
 
@@ -242,7 +245,13 @@ fn ffi_present_revocable(l: &Loaded, ts: i32, rev_state: usize, out: *mut usize,
     }
 }
 
-const TESTS: [(&str, &str); 30] = [
+const TESTS: [(&str, &str); 36] = [
+    ("handle:process-w3c-optional-rev-reg-def-stale", "stale-handle"),
+    ("handle:process-w3c-optional-rev-reg-def-wrong-type", "wrong-typed-handle"),
+    ("handle:revocation-state-optional-old-state-stale", "stale-handle"),
+    ("handle:revocation-state-optional-old-state-wrong-type", "wrong-typed-handle"),
+    ("handle:revocation-state-optional-old-list-stale", "stale-handle"),
+    ("handle:revocation-state-optional-old-list-wrong-type", "wrong-typed-handle"),
     ("null-out:verify_presentation", "null-result-pointer"),
     ("null-out:verify_w3c_presentation", "null-result-pointer"),
     ("null-out:encode_credential_attributes", "null-result-pointer"),
@@ -350,6 +359,29 @@ pub fn child(args: &[String]) {
             // with the optional argument absent the call gets as far as the signature check (an error of
             // its own); what matters here is that a stale / wrong-typed optional handle is reported as such
             let rc = unsafe { anoncreds_process_credential(l.cred0, mdh, ls.as_ptr(), l.cred_def0, opt, &mut okh) };
+            let msg = last_error().unwrap_or_default();
+            println!("RC {} MSG {} HANDLEMSG {}", rc, if msg.is_empty() { 0 } else { 1 }, if msg.contains("nvalid object handle") || msg.contains("Expected") { 1 } else { 0 });
+            return;
+        }
+        "handle:process-w3c-optional-rev-reg-def-stale" | "handle:process-w3c-optional-rev-reg-def-wrong-type" => {
+            let ls = cs(l.d["link_secret"].as_str().unwrap());
+            let md = json!({"link_secret_blinding_data": {"v_prime": "1", "vr_prime": null}, "nonce": "1", "link_secret_name": "ls"});
+            let (mut mdh, mut wch) = (0usize, 0usize);
+            unsafe {
+                anoncreds_credential_request_metadata_from_json(buf(&md), &mut mdh);
+                anoncreds_w3c_credential_from_json(buf(&l.d["w3c_cred0"]), &mut wch);
+            }
+            let opt = if test.ends_with("stale") { stale } else { l.schema };
+            let rc = unsafe { anoncreds_process_w3c_credential(wch, mdh, ls.as_ptr(), l.cred_def0, opt, &mut okh) };
+            let msg = last_error().unwrap_or_default();
+            println!("RC {} MSG {} HANDLEMSG {}", rc, if msg.is_empty() { 0 } else { 1 }, if msg.contains("nvalid object handle") || msg.contains("Expected") { 1 } else { 0 });
+            return;
+        }
+        t if t.starts_with("handle:revocation-state-optional-") => {
+            let tp = cs(l.d["tails_path"].as_str().unwrap_or(""));
+            let bad = if t.ends_with("stale") { stale } else { l.schema };
+            let (old_state, old_list) = if t.contains("old-state") { (bad, l.list0) } else { (l.state10, bad) };
+            let rc = unsafe { anoncreds_create_or_update_revocation_state(l.reg_def, l.list0, 1, tp.as_ptr(), old_state, old_list, &mut okh) };
             let msg = last_error().unwrap_or_default();
             println!("RC {} MSG {} HANDLEMSG {}", rc, if msg.is_empty() { 0 } else { 1 }, if msg.contains("nvalid object handle") || msg.contains("Expected") { 1 } else { 0 });
             return;
